@@ -74,7 +74,7 @@ def run(tier):
         tk, T = initial_target(rnd, A, B)
         limit = rnd.choice([1, 2, 3, 7, 127, 255, -1, -1])
         frag = rnd.choice([0, 1, 7, 1000, 16384]) if len(B) < 5000 else rnd.choice([0, 1000, 16384])
-        opts = rnd.choice(["", "", "quoted=1", "extra=1", "leadcrlf=0", "lower=1", "boundary=3d6b6a416f9b5", "partend=1", "partend=1"])
+        opts = rnd.choice(["", "", "quoted=1", "extra=1", "leadcrlf=0", "lower=1", "boundary=3d6b6a416f9b5", "partend=1", "partend=1", "fold=1"])
         # real servers pick a new multipart boundary for every response
         ropts = {r: "boundary=%s%dq" % (rnd.choice(["bnd", "x-", "7f3a", "B+"]), r) for r in range(40)} if (i % 2 == 0 and "boundary=" not in opts) else None
         sc = delta.Scenario("p%d" % i, wd, B, T, sources=[A] if A is not None else [], limit=limit, frag=frag, fetch_opts=opts, round_opts=ropts,
